@@ -48,6 +48,58 @@ Li0s == {0, 1}
 \* private copy of lastIndex is not the initial one (the judge takes the lastIndex observed just before the call as pre-state)
 AfterExec == {[m |-> "match"], [m |-> "search"], [m |-> "split", lim |-> -1], [m |-> "replace", t |-> U("$&")]}
 
+\* ---------------- group-count family (Gc): the NUMBER of capture groups against the $n / $nn references ----------------
+\* GetSubstitution reads `$nn` as a two-digit reference only when nn <= m (m = number of groups of the pattern) and falls back
+\* to `$n` followed by an ordinary digit otherwise: what a template means depends on m.  The grid above has m <= 2, where a
+\* two-digit reference with a non-zero first digit can never be in range and the fallback never finds a group either.  This
+\* family enumerates m itself (up to and beyond the one-digit / two-digit border 9 | 10) x every class of `$nn` relative to m
+\* x the text that follows the reference.  A variant is the same record the string-method judge already understands.
+GcCounts == IF Quick THEN {3, 9, 10, 11} ELSE 1..13
+GcShapes == {"flat", "optlast"}                       \* (a)(b)(c)...   |   (a)(b)...(k)?   (last group may not participate: undefined capture)
+GcLetter(k) == 96 + k
+GcGroup(k, opt) == IF opt THEN Rep(Grp(k, Chr(GcLetter(k))), 0, 1, TRUE) ELSE Grp(k, Chr(GcLetter(k)))
+RECURSIVE GcCat(_, _, _)
+GcCat(k, gn, optLast) == IF k = gn THEN GcGroup(k, optLast) ELSE Cat(GcGroup(k, FALSE), GcCat(k + 1, gn, optLast))
+GcPattern(gn, sh) == GcCat(1, gn, sh = "optlast")
+GcLetters(gn) == [k \in 1..gn |-> GcLetter(k)]
+\* "-abc..-" (one match, text on both sides; a sticky regex matches it from lastIndex 1), the subject without its last letter
+\* (flat: no match; optlast: the last capture is undefined), the letters twice (two matches of a global regex)
+GcSubjects(gn) == {<<45>> \o GcLetters(gn) \o <<45>>, GcLetters(gn - 1), GcLetters(gn) \o GcLetters(gn)}
+\* how GetSubstitution reads the two digits nn = r against gn groups
+GcClass(gn, r) ==
+  LET n == r \div 10 IN
+  CASE r = 0 -> "zero: literal"
+    [] r >= 1 /\ r < gn /\ n = 0 -> "two digits, leading zero, in range"
+    [] r >= 1 /\ r < gn /\ n > 0 -> "two digits, in range"
+    [] r >= 1 /\ r = gn -> "two digits, the last group"
+    [] r = gn + 1 /\ n >= 1 /\ n <= gn -> "one past the last group: $n then a digit"
+    [] r > gn + 1 /\ n >= 1 /\ n <= gn -> "beyond the groups: $n then a digit"
+    [] r > gn /\ n = 0 -> "leading zero, out of range: literal"
+    [] OTHER -> "first digit out of range: literal"
+GcRefs(gn) == IF Quick THEN {0, 1, 9, 10, 19, 20, 99} \cup {r \in (gn - 1)..(gn + 2) : r >= 0} ELSE 0..(gn + 10) \cup {20, 30, 90, 99}
+GcRef(r) == <<36, 48 + (r \div 10), 48 + (r % 10)>>                                   \* $nn
+GcForms == {"bracket", "bare", "digit"}                \* [$nn] (a non-digit follows)  |  $nn (the template ends)  |  $nn1 (a digit follows)
+GcT(form, r) == CASE form = "bracket" -> <<91>> \o GcRef(r) \o <<93>>  [] form = "bare" -> GcRef(r)  [] form = "digit" -> GcRef(r) \o <<49>>
+GcTemplates(gn) ==
+  {GcT(f, r) : f \in GcForms, r \in GcRefs(gn)}
+  \cup {<<91, 36, 48 + n, 93>> : n \in {0, 1, 9} \cup {Min(gn, 9)}}                  \* [$n]
+  \cup {GcRef(gn) \o GcRef(gn + 1) \o GcRef(1) \o <<36, 49>>}                           \* several references in a row
+GcVariants(gn) ==
+  {[m |-> "replace", t |-> t] : t \in GcTemplates(gn)}
+  \cup {[m |-> "replaceAll", t |-> GcT("bracket", r)] : r \in {gn, gn + 1}}
+  \cup {[m |-> "replace", fn |-> "fnArgs"], [m |-> "match"], [m |-> "split", lim |-> -1]}
+\* the quick sub-grid of references contains every class that exists for its group counts
+GcGridLaw(gn) == {GcClass(gn, r) : r \in GcRefs(gn)} = {GcClass(gn, r) : r \in 0..99}
+\* the reference's GetSubstitution against an independent statement of the same rule (by class), all captures defined
+GcSubstLaw(gn) ==
+  LET caps == [k \in 1..gn |-> <<GcLetter(k)>>] IN
+  \A r \in GcRefs(gn) :
+    LET n == r \div 10  d == <<48 + (r % 10)>>  cl == GcClass(gn, r)
+        got == GetSubstitution(GcLetters(gn), GcLetters(gn), 0, caps, GcRef(r))
+    IN IF r >= 1 /\ r <= gn THEN got = caps[r]
+       ELSE IF n >= 1 /\ n <= gn THEN got = caps[n] \o d
+       ELSE got = GcRef(r)
+
 \* ---------------- Enum ---------------------------------------------------------------------------------
 VARIABLES ph, cur, tid, step, mli, bad
 tvars == <<ph, cur, tid, step, mli, bad>>
@@ -63,6 +115,11 @@ EnumNext ==
           /\ cur' = [kind |-> "cfg", p |-> p, fl |-> fl, flags |-> FlagSets[fl], src |-> Render(Patterns[p]), subjects |-> Subjects]
      \/ \E a \in SmPatterns :
           /\ ph' = "smpat" /\ cur' = [kind |-> "smpat", ast |-> a, src |-> Render(a)]
+     \/ \E gn \in GcCounts : \E sh \in GcShapes :
+          /\ ph' = "gcpat"
+          /\ cur' = [kind |-> "gcpat", gn |-> gn, shape |-> sh, ast |-> GcPattern(gn, sh), src |-> Render(GcPattern(gn, sh)),
+                     subjects |-> GcSubjects(gn), variants |-> GcVariants(gn),
+                     classes |-> {GcClass(gn, r) : r \in GcRefs(gn)}]
      \/ /\ ph' = "smgrid"
         /\ cur' = [kind |-> "smgrid", flags |-> SmFlags, subjects |-> SmSubjects, variants |-> Variants, li0 |-> Li0s, afterexec |-> AfterExec]
 EnumEmit == ph = "start" \/ PrintT(ToJson(cur))
@@ -82,7 +139,8 @@ SmLaw(a) ==
        /\ (NCaps(a) = 0 => Flatten([k \in 1..Len(sp.v.e) |-> sp.v.e[k].u]) = ReplaceM(g, s, VInt(0), [t |-> <<>>], {}).v.u
                            \/ sp.v.e = <<>>)                                          \* split pieces = subject with the separators removed
        /\ SplitM2(ng, s, VInt(0), 1, {}).v.e = SubSeq(sp.v.e, 1, Min(1, Len(sp.v.e)))
-LawsHold == ph # "smpat" \/ SmLaw(cur.ast)
+LawsHold == /\ ph # "smpat" \/ SmLaw(cur.ast)
+            /\ ph # "gcpat" \/ (GcGridLaw(cur.gn) /\ GcSubstLaw(cur.gn))
 
 \* ---------------- Trace: total trace specification over recorded histories ------------------------------
 Recs == ndJsonDeserialize(IOEnv.OBS_FILE)
